@@ -14,20 +14,44 @@ import gen_score as G
 
 PROPERTY = "C16"
 DRIVER = "drv_c16"
-PROPS = ["PartituraModel.Props.C16", "PartituraModel.Props.C16Roman"]
+PROPS = ["PartituraModel.Props.C16", "PartituraModel.Props.C16Roman", "PartituraModel.Props.C16Heap"]
 TRUSTED = [
-    "copy.deepcopy of scores (the copy is compared with the model only through its notes; the frame check compares the whole argument)",
-    "Python dict lookups in STEPS / MIDI_BASE_CLASS / INTERVAL_TO_SEMITONES (tables regenerated into Lean on every run)",
+    "copy.deepcopy is modelled by its specification (Model/TransposeHeap.lean `deepcopy`: a fresh cell per object, references "
+    "translated to the copies); the heap stream compares the whole object graph of argument and result with the model on every generated score",
+    "Python dict lookups in STEPS / MIDI_BASE_CLASS / INTERVAL_TO_SEMITONES / ALT_TO_INT / INT_TO_ALT / Roman2Interval_* / "
+    "LOCAL_KEY_TRASPOSITIONS_DCML (tables regenerated into Lean on every run)",
+    "re.search / re.match / re.sub with the three character classes [a-gA-G], [#b-]*, [^a-zA-Z] and str.count / replace / islower / lower / upper "
+    "on ASCII strings (small Lean functions in Model/RomanRoot.lean, Model/LocalKey.lean)",
+    "Interval.validate / change_quality: the model of C12 (Model/Pitch.lean) is reused",
 ]
-PARTIAL = ["non-mutation of the argument and preservation of all non-pitch attributes are established by deep fingerprints "
-           "of generated scores (frame check), not by a theorem: the Lean model is pure"]
+PARTIAL = [
+    "the opaque part of an object (everything but pitch fields and references: onset, duration, voice, staff, id ...) is a payload "
+    "in the heap model: `everything_else_unchanged` proves it is carried over unchanged, its CONTENT is compared by the heap stream (CRC of the attributes) and the fingerprints",
+    "transpose on an argument that is neither Score nor Part (returns an untransposed copy) is modelled (`partsOf`) but not exercised: the property speaks of scores and parts",
+    "a part listed twice in one score is transposed twice by the code and by the model; the theorems assume each note is listed once (`ValidArg.once`)",
+    "text parsing of RomanNumeral (`_process_*`: degrees, inversion, quality from the annotation text) is outside the property (the streams pass the fields explicitly); "
+    "an inversion of 0 computes no root at all (mirrored, not judged)",
+    "bass notes of diminished / augmented / augmented-sixth chords: find_bass_note has a TODO, the oracle does not judge them (the model mirrors what the code does)",
+]
 RULE = ("exhaustive: steps x alterations {-2..2, None} x octaves 0..8 x 39 interval classes x {up, down} on single notes; "
         "transpose_note on steps x alterations -3..3 x 39 classes; seeded random scores/parts with ties, chords, grace "
-        "notes, rests, unpitched notes as Score and as Part argument; distinct = distinct request line")
-LEVEL_TEXT = ("Lean 4 theorems for all octaves and alterations (unbounded integers): MIDI pitch moves by the interval's "
-              "semitones, the staff position by number-1 steps, up-then-down is the identity, the octave-free variant "
-              "agrees; the model is tied to the code by the regenerated tables and by an exhaustive differential run over "
-              "the finite domain the property names plus generated scores with a deep frame check of the argument.")
+        "notes, rests, unpitched notes as Score and as Part argument, every tie shape of TIE_MODES (enharmonic chains, removed heads / "
+        "middles / tails, chains across parts and out of the argument, one-way links) with both argument kinds whatever the seed; "
+        "32 key names (written with b, # and -) x 20 secondary x 40 primary degrees x inversions 0..3; sequences and chains of "
+        "process_local_key calls; distinct = distinct request line")
+LEVEL_TEXT = ("Lean 4 theorems for all octaves and alterations (unbounded integers), now without side conditions at the level of the "
+              "function the driver runs: for every step name, the 39 classes, both directions a note does not raise, its MIDI pitch "
+              "moves by the interval's semitones, its staff position by number-1 steps, up-then-down restores it (note_moved, "
+              "note_up_down); over a heap model of transpose (deepcopy, Score/Part dispatch, both loops, in-place update) for ALL "
+              "object graphs: the argument's cells are untouched and a new object is returned (argument_untouched), every other "
+              "field and every reference - ties included - of every object is carried to the copy (everything_else_unchanged, "
+              "unvisited_copied), every pitched note of the parts is transposed from its own spelling whatever it is tied to "
+              "(every_note_transposed, every_note_moved), the call is total on valid input (transpose_total) and up-then-down "
+              "restores the spelling of whole scores (up_then_down_restores); the chord-root arithmetic (process_local_key, "
+              "find_root_note with both fallbacks, find_bass_note) is modelled completely and proved to be scale arithmetic over "
+              "whole finite domains, including that partitura reads back the names it writes.  The model is tied to the code by "
+              "regenerated tables and by differential streams over the finite domain the property names plus generated scores "
+              "whose whole object graph (argument after the call and result) is compared with the model.")
 
 STEPS = "CDEFGAB"
 BASE = {"C": 0, "D": 2, "E": 4, "F": 5, "G": 7, "A": 9, "B": 11}
@@ -54,6 +78,76 @@ def degree_interval(degree, minor_context):
     return (DEG_MINOR if minor_context else DEG_MAJOR)[degree]
 
 
+# keys as process_local_key and find_root_note THEMSELVES write them (INT_TO_ALT: a flat is "-"): what the DCML importer
+# hands to RomanNumeral as local key and to process_local_key as global key of a chained local key
+KEY_POOL_DASH = ["B-", "E-", "e-", "A-", "b-", "a-", "D-", "g#", "C#", "G-"]
+# degrees written with an accidental (not in the Roman2Interval tables: the process_local_key fallback of find_root_note)
+ALTERED_DEGREES = ["bII", "bVII", "bVI", "bIII", "#iv", "#vi", "#vii", "bii", "#IV", "bbVII", "##iv"]
+ROMAN_NUM = {"i": 1, "ii": 2, "iii": 3, "iv": 4, "v": 5, "vi": 6, "vii": 7}
+# scale degrees above the tonic, from scale theory: major scale, natural minor scale
+SCALE = {False: ["P", "M", "M", "P", "P", "M", "M"], True: ["P", "M", "m", "P", "P", "m", "m"]}
+
+
+def key_tonic(name):
+    """(step index, alteration) of a key / note name: step letter, then accidentals (# sharp, b or - flat)"""
+    if not name or name[0].upper() not in BASE:
+        return None
+    return STEPS.index(name[0].upper()), acc_of(name)
+
+
+def acc_of(name):
+    return name[1:].count("#") - name[1:].count("b") - name[1:].count("-")
+
+
+def spell_acc(a):
+    return "#" * a if a > 0 else "b" * (-a)
+
+
+def degree_core(deg):
+    return deg.replace("#", "").replace("b", "")
+
+
+def altered_degree(deg, minor_context):
+    """(number, semitones above the tonic) of a degree written the DCML way: the scale degree of the context's mode
+    (major scale / natural minor scale), every # in front of it a semitone higher, every b a semitone lower"""
+    n = ROMAN_NUM[degree_core(deg).lower()]
+    return n, semis(SCALE[minor_context][n - 1], n) + deg.count("#") - deg.count("b")
+
+
+def degree_in_ladder(deg, minor_context):
+    """the altered degree is still one of the interval classes dd d (m M | P) A AA of its number"""
+    core = degree_core(deg).lower()
+    if core not in ROMAN_NUM:
+        return False
+    n = ROMAN_NUM[core]
+    ladder = QUALS_P if n in (1, 4, 5) else QUALS_I
+    return 0 <= ladder.index(SCALE[minor_context][n - 1]) + deg.count("#") - deg.count("b") < len(ladder)
+
+
+def up_semis(step_i, alter, n, st):
+    """(step index, alteration) n-1 staff steps and `st` semitones higher"""
+    j = (step_i + n - 1) % 7
+    return j, alter + st - (BASE[STEPS[j]] - BASE[STEPS[step_i]]) % 12
+
+
+TRIADS = ["I", "II", "III", "IV", "V", "VI", "VII", "i", "ii", "iii", "iv", "v", "vi", "vii"]
+
+
+def bass_interval(prim, inv):
+    """the interval between the root and the bass of an inversion, where music theory and the rule find_bass_note
+    documents agree (the method has a TODO for diminished / augmented chords; those are not judged): the third of a
+    chord written in lower case is minor, in upper case major (augmented sixth chords excluded); the fifth of a plain
+    major / minor triad is perfect; the seventh of the dominant and of the minor triads is minor"""
+    core = degree_core(prim)
+    if inv == 1 and core in TRIADS + ["viio", "iio", "III+", "N"]:
+        return ("m", 3) if core[0].islower() else ("M", 3)
+    if inv == 2 and core in TRIADS + ["N"]:
+        return ("P", 5)
+    if inv == 3 and (core == "V" or core in TRIADS[7:]):
+        return ("m", 7)
+    return None
+
+
 def up(step_i, alter, q, n):
     """(step index, alteration) a diatonic interval higher, by scale arithmetic"""
     j = (step_i + n - 1) % 7
@@ -76,6 +170,243 @@ def semis(q, n):
     return base + {"dd": -3, "d": -2, "m": -1, "M": 0, "A": 1, "AA": 2}[q]
 
 
+# ---------------------------------------------------------------------------------------------------- tie chains
+# How the ties of the argument look.  "every pitched note - including the later notes of tie chains - has moved by the
+# interval" is judged per note OBJECT, from ITS OWN spelling, whatever it is tied to:
+#   enh          later notes of a chain are spelled differently from the note before (G#4 tied to Ab4: valid MusicXML,
+#                usual across key changes)
+#   mis          a tie between two different pitches (a slur read as a tie)
+#   rm_head      the first note of a chain was removed with Part.remove(): the second keeps a dangling tie_prev
+#   rm_mid       a middle note was removed: dangling tie_next before it, dangling tie_prev after it
+#   rm_tail      the last note was removed: dangling tie_next
+#   cross        a chain runs from one part into the next part of the score / into a part that is not in the argument
+#   one_way_next only `tie_next` is set (the target does not know it is tied)
+#   one_way_prev only `tie_prev` is set
+#   mixed        enharmonic chains, then a head and a tail removed, then one one-way link
+TIE_MODES = ["enh", "mis", "rm_head", "rm_mid", "rm_tail", "cross", "one_way_next", "one_way_prev", "mixed"]
+
+
+def midi_of(step, alter, octv):
+    return (octv + 1) * 12 + BASE[step] + (alter or 0)
+
+
+def enharmonic(step, alter, octv, rng):
+    """another spelling of the same sounding pitch, one staff step away, alteration within +-2"""
+    m = midi_of(step, alter, octv)
+    opts = []
+    for ds in (1, -1):
+        o2, j = divmod(7 * octv + STEPS.index(step) + ds, 7)
+        a2 = m - midi_of(STEPS[j], 0, o2)
+        if -2 <= a2 <= 2:
+            opts.append((STEPS[j], a2, o2))
+    return rng.choice(opts) if opts else (step, alter, octv)
+
+
+def expected_spelling(step, alter, octv, q, n, sg):
+    """(step, alteration, octave) of a note moved by the interval, from plain diatonic arithmetic: the staff position
+    7*octave + step index moves by +-(number-1), the sounding pitch by +-semitones, the alteration is what is left"""
+    o2, j = divmod(7 * octv + STEPS.index(step) + sg * (n - 1), 7)
+    m = midi_of(step, alter, octv) + sg * semis(q, n)
+    return STEPS[j], m - midi_of(STEPS[j], 0, o2), o2
+
+
+def force_ties(pd, rng, want):
+    """make sure the part description holds at least `want` tie links (where its notes allow it)"""
+    notes = [n for n in pd["notes"] if n["kind"] == "note"]
+    byid = {n["id"]: n for n in notes}
+    targets = {n["tie"] for n in notes if n.get("tie")}
+    at = {}
+    for n in notes:
+        at.setdefault((n["voice"], n["t"]), []).append(n)
+    cand = list(notes)
+    rng.shuffle(cand)
+    for a in cand:
+        if len(targets) >= want:
+            break
+        if a.get("tie"):
+            continue
+        nxt = [b for b in at.get((a["voice"], a["t"] + a["dur"]), []) if b["id"] not in targets]
+        if not nxt:
+            continue
+        b = nxt[0]
+        a["tie"] = b["id"]
+        targets.add(b["id"])
+        seen = set()
+        while b is not None and b["id"] not in seen:   # the rest of the chain keeps the spelling
+            seen.add(b["id"])
+            b["step"], b["alter"], b["oct"] = a["step"], a["alter"], a["oct"]
+            b = byid.get(b.get("tie"))
+
+
+def respell_ties(pd, rng, mode):
+    """later chain members get another spelling of the same pitch ("enh") or another pitch ("mis")"""
+    byid = {n["id"]: n for n in pd["notes"]}
+    k = 0
+    for a in pd["notes"]:
+        b = byid.get(a.get("tie"))
+        if b is None or (k > 0 and rng.random() < 0.3):
+            continue
+        k += 1
+        if mode == "mis":
+            b["step"], b["alter"], b["oct"] = rng.choice(STEPS), rng.choice([-1, 0, 0, 1]), rng.randint(2, 6)
+        else:
+            b["step"], b["alter"], b["oct"] = enharmonic(b["step"], b["alter"], b["oct"], rng)
+    return k
+
+
+def tie_ops(parts, mode, rng, info):
+    """edits of the built parts' tie chains (public API: Part.remove, attribute assignment); returns foreign parts
+    that must stay alive"""
+    import partitura.score as S
+
+    def pick(l):
+        return [] if not l else rng.sample(l, max(1, len(l) // 2))
+
+    alln = [(p, n) for p in parts for n in p.notes]
+    keep = []
+    if mode in ("rm_head", "mixed"):
+        for p, n in pick([(p, n) for p, n in alln if n.tie_prev is None and n.tie_next is not None]):
+            p.remove(n)
+            info["removed_heads"] = info.get("removed_heads", 0) + 1
+    if mode == "rm_mid":
+        mids = [(p, n) for p, n in alln if n.tie_prev is not None and n.tie_next is not None]
+        for p, n in pick(mids or [(p, n) for p, n in alln if n.tie_prev is None and n.tie_next is not None]):
+            p.remove(n)
+            info["removed_mids"] = info.get("removed_mids", 0) + 1
+    if mode in ("rm_tail", "mixed"):
+        for p, n in pick([(p, n) for p, n in alln if n.tie_prev is not None and n.tie_next is None and n.start is not None]):
+            p.remove(n)
+            info["removed_tails"] = info.get("removed_tails", 0) + 1
+    if mode in ("one_way_next", "one_way_prev", "mixed"):
+        links = [(p, n) for p, n in alln if n.tie_next is not None and n.start is not None and n.tie_next.start is not None]
+        for p, n in (pick(links)[:1] if mode == "mixed" else pick(links)):
+            if mode == "one_way_prev":
+                n.tie_next = None
+            else:
+                n.tie_next.tie_prev = None
+            info["one_way"] = info.get("one_way", 0) + 1
+    if mode == "cross":
+        plain = lambda p: [n for n in p.notes if type(n) is S.Note]
+        seq = list(parts)
+        if len(seq) == 1:
+            # chains that leave / enter the argument: a foreign part on either side
+            for side in (0, 1):
+                fp = G.build_part(G.random_part_desc(rng, pid="PX%d" % side, n_measures=1, voices=1))
+                keep.append(fp)
+                seq = ([fp] + seq) if side else (seq + [fp])
+        for pa, pb in zip(seq, seq[1:]):
+            src = [n for n in plain(pa) if n.tie_next is None]
+            dst = [n for n in plain(pb) if n.tie_prev is None]
+            if src and dst:
+                a, b = src[-1], dst[0]
+                a.tie_next, b.tie_prev = b, a
+                info["cross_links"] = info.get("cross_links", 0) + 1
+    return keep
+
+
+# ---------------------------------------------------------------------------------------------------- heap stream
+# The argument of `transpose` as the heap of the Lean model (Model/TransposeHeap.lean): cell 0 is the Score / Part, then
+# the parts of a score, then the objects of each part in timeline order, then whatever else the objects refer to
+# (removed chain members, notes of foreign parts, ...) in order of discovery.  A cell carries the references of the
+# object (every attribute holding a TimedObject, every TimedObject inside a list attribute, in attribute-name order)
+# and a payload (start, end, CRC of the class name and of every other attribute) - for a Note also the pitch fields.
+def heap_of(root, known, base):
+    """(objects, cell token lists) of the graph below `root`; addresses start at `base`; objects listed in `known`
+    (python id -> address) keep that address (a result that shares objects with the argument shows them so)"""
+    import json
+    import zlib
+    import partitura.score as S
+
+    objs, index = [], {}
+
+    def add(o):
+        index[id(o)] = base + len(objs)
+        objs.append(o)
+
+    def addr(o):
+        if id(o) in known:
+            return known[id(o)]
+        if id(o) not in index:
+            add(o)
+        return index[id(o)]
+
+    add(root)
+    parts = list(root.parts) if isinstance(root, S.Score) else [root]
+    for p in parts:
+        addr(p)
+    content = {}
+    for p in parts:
+        if id(p) not in content:
+            content[id(p)] = [addr(o) for o in G.part_objects(p)]
+    cells = [None] * len(objs)
+    k = 0
+    while k < len(objs):
+        o = objs[k]
+        if isinstance(o, S.Score):
+            cell = ["S", [addr(p) for p in parts]]
+        elif isinstance(o, S.Part):
+            cell = ["P", content.get(id(o), [])]   # (a foreign part is never reached: `start` / `end` are not followed)
+        else:
+            refs, rest = [], []
+            pitch = ("step", "alter", "octave") if isinstance(o, S.Note) else ()
+            for key in sorted(vars(o)):
+                v = vars(o)[key]
+                if key in pitch or not G._obj_attr_counts(key):
+                    continue
+                if isinstance(v, S.TimedObject):
+                    refs.append(addr(v))
+                    rest.append([key, "ref"])
+                elif isinstance(v, (list, tuple)) and any(isinstance(x, S.TimedObject) for x in v):
+                    refs.extend(addr(x) for x in v if isinstance(x, S.TimedObject))
+                    rest.append([key, ["ref" if isinstance(x, S.TimedObject) else G._canon(x, {}) for x in v]])
+                else:
+                    rest.append([key, G._canon(v, {})])
+            crc = zlib.crc32(json.dumps([type(o).__name__, rest], sort_keys=True, default=str).encode())
+            payload = [-1 if o.start is None else o.start.t, -1 if o.end is None else o.end.t, crc]
+            if isinstance(o, S.Note):
+                cell = ["N", o.step, o.alter, o.octave, refs, payload]
+            else:
+                cell = ["O", refs, payload]
+        if k < len(cells):
+            cells[k] = cell
+        else:
+            cells.append(cell)
+        k += 1
+    return objs, cells
+
+
+def cell_req(c):
+    if c[0] in "SP":
+        return "%s %s" % (c[0], W.lst(W.i, c[1]))
+    if c[0] == "N":
+        return "N %s %s %d %s %s" % (W.s(c[1]), W.opt(W.i, c[2]), c[3], W.lst(W.i, c[4]), W.lst(W.i, c[5]))
+    return "O %s %s" % (W.lst(W.i, c[1]), W.lst(W.i, c[2]))
+
+
+def cell_fmt(c):
+    if c[0] in "SP":
+        return c[0] + W.f_list(W.f_int, c[1])
+    if c[0] == "N":
+        return "N" + W.f_tuple(str(c[1]), W.f_opt(W.f_int, c[2]), W.f_int(c[3]), W.f_list(W.f_int, c[4]), W.f_list(W.f_int, c[5]))
+    return "O" + W.f_tuple(W.f_list(W.f_int, c[1]), W.f_list(W.f_int, c[2]))
+
+
+def linked_outside(parts):
+    """notes reachable through tie links from the notes of the parts that are in none of them (removed chain members,
+    notes of other parts): [(python id, note id, step, alter, octave)]"""
+    inside = {id(n) for p in parts for n in p.notes}
+    out, seen = [], set()
+    todo = [n for p in parts for n in p.notes]
+    while todo:
+        n = todo.pop()
+        for m in (n.tie_next, n.tie_prev):
+            if m is not None and id(m) not in inside and id(m) not in seen:
+                seen.add(id(m))
+                out.append((id(m), m.id, m.step, m.alter, m.octave))
+                todo.append(m)
+    return sorted(out)
+
+
 def cases(rng, tier):
     for st in STEPS:
         for al in (-2, -1, 0, 1, 2, None):
@@ -93,12 +424,18 @@ def cases(rng, tier):
         for _ in range(rng.randint(4, 12)):
             dg = rng.choice(degs)
             dg = dg.upper() if rng.random() < 0.5 else dg
-            calls.append([rng.choice(["", "", "b", "#"]) + dg, rng.choice(KEY_POOL)])
-        yield {"k": "lockey", "calls": calls}
+            calls.append([rng.choice(["", "", "", "b", "#", "bb", "##"]) + dg, rng.choice(KEY_POOL + KEY_POOL_DASH)])
+        if rng.random() < 0.3:   # what the code rejects (unknown degree, mixed case, a key without a step letter)
+            calls.insert(rng.randrange(len(calls)), rng.choice([["viio", "C"], ["V7", "F"], ["", "C"], ["Vi", "a"], ["V", "x"], ["V", ""], ["bbbII", "C"], ["iv.", "g"]]))
+        chains = [[rng.choice(["", "b", "#"]) + rng.choice(degs + [x.upper() for x in degs]),
+                   rng.choice(["", "", "b", "#"]) + rng.choice(degs + [x.upper() for x in degs]),
+                   rng.choice(KEY_POOL + KEY_POOL_DASH)] for _ in range(3)]
+        yield {"k": "lockey", "calls": calls, "chains": chains}
     # chord roots of applied chords: every local key x secondary degree, all primary degrees of the tables in one case
-    for lk in KEY_POOL:
-        for sec in ["I", "II", "III", "IV", "V", "VI", "VII", "i", "ii", "iii", "iv", "v", "vi", "vii", "III+"]:
-            yield {"k": "roman", "key": lk, "sec": sec}
+    for ki, lk in enumerate(KEY_POOL + KEY_POOL_DASH):
+        for si, sec in enumerate(["I", "II", "III", "IV", "V", "VI", "VII", "i", "ii", "iii", "iv", "v", "vi", "vii", "III+",
+                                  "bVII", "bVI", "bIII", "#iv", "bii"]):
+            yield {"k": "roman", "key": lk, "sec": sec, "inv": (ki + si) % 4}
     n = 40 if tier == "quick" else 1500
     ivs = all_intervals()
     for i in range(n):
@@ -119,7 +456,16 @@ def cases(rng, tier):
         # object may be listed only once: what is transposed is every part the score holds, identified by nothing else
         if not d["as_part"] and rng.random() < 0.25:
             d["same_ids"] = True
+        # what the TIES of the argument look like (see TIE_MODES): a third of the random arguments, and one block that
+        # runs through every mode with Part and with Score arguments whatever the seed
+        if rng.random() < 0.35:
+            d["ties"] = rng.choice(TIE_MODES)
         yield d
+    reps = 2 if tier == "quick" else 40
+    for i in range(reps * len(TIE_MODES)):
+        q, num = rng.choice(ivs[5:])   # not a unison: the spelling has to move
+        yield {"k": "part", "seed": rng.randrange(2**31), "q": q, "n": num, "dir": ["up", "down"][(i // len(TIE_MODES)) % 2],
+               "as_part": (i // len(TIE_MODES) + i % len(TIE_MODES)) % 2 == 0, "ties": TIE_MODES[i % len(TIE_MODES)], "small": True}
 
 
 def call(f, *a):
@@ -187,69 +533,129 @@ def evaluate(d):
                         st, al, q, n, r, note.step, note.alter))
         ev.key = "tno:%s:%d" % (st, al)
     elif k == "lockey":
-        import partitura.utils.globals as GL
+        def one(loc, glob, tonic, why):
+            """both forms of process_local_key(loc, glob); `tonic` = what the oracle takes `glob` for; returns the
+            (step index, alteration) of the new key by scale arithmetic (None: outside what the code supports)"""
+            out = {}
+            for flag in (True, False):
+                r, e = call(S.process_local_key, loc, glob, flag)
+                ev.requests.append("plk %s %s %d" % (W.s(loc), W.s(glob), flag))
+                ok = e is None and (isinstance(r, tuple) if flag else isinstance(r, str))
+                ev.impl.append((W.f_tuple(str(r[0]), W.f_int(r[1])) if flag else "N:" + r) if ok else "err")
+                out[flag] = r if ok else e
+            exp = None
+            core = degree_core(loc)
+            if tonic is not None and core.lower() in ROMAN_NUM and core in (core.lower(), core.upper()) and degree_in_ladder(loc, glob.islower()):
+                n, st = altered_degree(loc, glob.islower())
+                j, al = up_semis(tonic[0], tonic[1], n, st)
+                if -3 < tonic[1] < 3 and -3 < al < 3:
+                    exp = (j, al)
+                    got = out[True]
+                    if not isinstance(got, tuple) or (got[0], got[1]) != (STEPS[j], al):
+                        ev.oracle.append("local key: process_local_key(%r, %r, True) = %r, scale arithmetic gives (%s, %d)%s [call sequence %s]" % (
+                            loc, glob, got, STEPS[j], al, why, d["calls"]))
+                    nm = out[False]
+                    if not isinstance(nm, str) or not nm or key_tonic(nm) != (j, al) or nm[0].islower() != core.islower():
+                        ev.oracle.append("local key: process_local_key(%r, %r) = %r, scale arithmetic gives the %s key on %s%s%s" % (
+                            loc, glob, nm, "minor" if core.islower() else "major", STEPS[j], spell_acc(al), why))
+            return exp, out[False]
 
-        LADDER_P = ["dd", "d", "P", "A", "AA"]
-        LADDER_I = ["dd", "d", "m", "M", "A", "AA"]
         for loc, glob in d["calls"]:
-            r, e = call(S.process_local_key, loc, glob, True)
-            sharps, flats = loc.count("#"), loc.count("b")
-            deg = loc.replace("#", "").replace("b", "").lower()
-            num, qual = GL.LOCAL_KEY_TRASPOSITIONS_DCML["minor" if glob.islower() else "major"][deg]
-            ladder = LADDER_P if num in (1, 4, 5) else LADDER_I
-            qi = ladder.index(qual) + sharps - flats
-            kstep = glob[0].upper()
-            kalt = {"": 0, "#": 1, "b": -1}[glob[1:2]]
-            if not (0 <= qi < len(ladder)):
-                continue
-            q2 = ladder[qi]
-            ev.requests.append("tno %s %d %s %d" % (kstep, kalt, W.s(q2), num))
-            ev.impl.append("err" if e else W.f_tuple(r[0], W.f_int(r[1])))
-            # independent diatonic arithmetic
-            i0 = STEPS.index(kstep)
-            i1 = (i0 + num - 1) % 7
-            exp_alt = semis(q2, num) - ((BASE[STEPS[i1]] - BASE[kstep]) % 12) + kalt
-            if -3 < exp_alt < 3:
-                if e or (r[0], r[1]) != (STEPS[i1], exp_alt):
-                    ev.oracle.append("local key: process_local_key(%r, %r) = %r, diatonic arithmetic gives (%s, %d) [call sequence %s]" % (
-                        loc, glob, e or r, STEPS[i1], exp_alt, d["calls"]))
-                    break
+            before = len(ev.oracle)
+            one(loc, glob, key_tonic(glob), "")
+            if len(ev.oracle) > before:
+                break
+        # local keys of local keys, as the DCML importer computes "V/bIII": the key name the first call returns is the
+        # global key of the second
+        for loc2, loc1, glob in d.get("chains", []):
+            exp1, inter = one(loc1, glob, key_tonic(glob), "")
+            if exp1 is not None and isinstance(inter, str) and inter:
+                one(loc2, inter, exp1, " (%r is process_local_key(%r, %r))" % (inter, loc1, glob))
         # a Roman numeral's root must not depend on how often it was computed
         for txt in ("G:V65/bIII", "C:V7/bVII", "a:viio/#vi"):
             a, e1 = call(lambda: S.RomanNumeral(txt).root)
             b, e2 = call(lambda: S.RomanNumeral(txt).root)
             if (e1 is None) != (e2 is None) or (e1 is None and a != b):
                 ev.oracle.append("roman numeral: root of %r is %r the first time and %r the second" % (txt, e1 or a, e2 or b))
-        ev.key = "lockey:" + "|".join(l + "/" + g for l, g in d["calls"])
+        ev.key = "lockey:" + "|".join(l + "/" + g for l, g in d["calls"]) + "|" + "|".join("/".join(c) for c in d.get("chains", []))
     elif k == "roman":
         lk, sec = d["key"], d["sec"]
-        ti = STEPS.index(lk[0].upper())
-        ta = {"": 0, "#": 1, "b": -1}[lk[1:2]]
+        ti, ta = key_tonic(lk)
         minor_key = lk[0].islower()
-        q1, n1 = degree_interval(sec, minor_key)
-        ai, aa = up(ti, ta, q1, n1)
-        for prim in list(DEG_MAJOR) + list(DEG_BOTH):
-            q2, n2 = degree_interval(prim, sec[0].islower())
-            ri, ra = up(ai, aa, q2, n2)
-            rn, e = call(lambda: S.RomanNumeral("x", inversion=1, local_key=lk, primary_degree=prim, secondary_degree=sec, quality="maj"))
-            ev.requests.append("rroot %s %s %s" % (W.s(lk), W.s(prim), W.s(sec)))
-            if e or not hasattr(rn, "root"):
-                ev.impl.append("err")
-                if -3 < aa < 3 and -3 < ra < 3:
-                    ev.oracle.append("roman root: RomanNumeral(local_key=%r, %s/%s) %s, scale arithmetic gives %s%+d" % (
-                        lk, prim, sec, "raised %r" % (e,) if e else "has no root", STEPS[ri], ra))
+        judged = True
+        if sec in DEG_BOTH or sec in DEG_MAJOR:
+            q1, n1 = degree_interval(sec, minor_key)
+            ai, aa = up(ti, ta, q1, n1)
+        else:
+            judged = degree_in_ladder(sec, minor_key)
+            n1, st1 = altered_degree(sec, minor_key)
+            ai, aa = up_semis(ti, ta, n1, st1)
+        sec_minor = degree_core(sec)[0].islower()
+        for pi, prim in enumerate(list(DEG_MAJOR) + list(DEG_BOTH) + ALTERED_DEGREES + ([""] if sec == "I" else [])):
+            inv = d.get("inv", 0) if prim == "I" and sec == "V" else 1 + (pi + len(sec)) % 3
+            pj = judged
+            if prim in DEG_BOTH or prim in DEG_MAJOR:
+                q2, n2 = degree_interval(prim, sec_minor)
+                ri, ra = up(ai, aa, q2, n2)
+                # the table path of the root alone (Model/RomanRoot.lean `romanRoot`)
+                table_path = sec in DEG_BOTH or sec in DEG_MAJOR
+            elif prim:
+                pj = pj and degree_in_ladder(prim, sec_minor)
+                n2, st2 = altered_degree(prim, sec_minor)
+                ri, ra = up_semis(ai, aa, n2, st2)
+                table_path = False
+            else:
+                pj, table_path, ri, ra = False, False, 0, 0
+            rn, e = call(lambda: S.RomanNumeral("x", inversion=inv, local_key=lk, primary_degree=prim, secondary_degree=sec, quality="maj"))
+            ev.requests.append("rn %d %s %s %s maj" % (inv, W.s(lk), W.s(prim), W.s(sec)))
+            has = e is None and hasattr(rn, "root") and isinstance(rn.root, str) and isinstance(getattr(rn, "bass_note", None), str)
+            ev.impl.append("err" if e else (W.f_tuple(rn.root, rn.bass_note) if has else "-"))
+            if table_path and has and rn.root:
+                ev.requests.append("rroot %s %s %s" % (W.s(lk), W.s(prim), W.s(sec)))
+                ev.impl.append(W.f_tuple(rn.root[0].upper(), W.f_int(acc_of(rn.root))))
+            if inv == 0 or not prim:
+                continue   # (the constructor computes no root for an inversion of 0 / without a degree: nothing to judge)
+            # the root on its own (the constructor also raises when only the BASS note leaves the range of -2..2)
+            stub = object.__new__(S.RomanNumeral)
+            stub.local_key, stub.primary_degree, stub.secondary_degree = lk, prim, sec
+            root, e_root = call(stub.find_root_note)
+            in_range = -3 < ta < 3 and -3 < aa < 3 and -3 < ra < 3
+            if has and (e_root is not None or root != rn.root):
+                ev.oracle.append("roman root: %s/%s in %s: the numeral stores root %r, find_root_note gives %r" % (prim, sec, lk, rn.root, e_root or root))
+            if e_root is not None or not isinstance(root, str) or not root:
+                if pj and in_range:
+                    ev.oracle.append("roman root: find_root_note of RomanNumeral(local_key=%r, %s/%s) raised %r, scale arithmetic gives %s%+d" % (
+                        lk, prim, sec, e_root, STEPS[ri], ra))
                 continue
-            root = rn.root
-            rs = root[0].upper()
-            ral = root[1:].count("#") - root[1:].count("b") - root[1:].count("-")
-            ev.impl.append(W.f_tuple(rs, W.f_int(ral)))
-            if (rs, ral) != (STEPS[ri], ra):
+            rs, ral = root[:1].upper(), acc_of(root)
+            if pj and in_range and (rs, ral) != (STEPS[ri], ra):
                 ev.oracle.append("roman root: %s/%s in %s has root %r, scale arithmetic gives %s%+d (applied tonic %s%+d)" % (
                     prim, sec, lk, root, STEPS[ri], ra, STEPS[ai], aa))
-        ev.key = "roman:%s:%s" % (lk, sec)
+            # the bass note of the inversion stands a third / fifth / seventh above the root AS THE ROOT IS SPELLED
+            # (judged where the interval the method documents is the chord's: see bass_interval)
+            bi = bass_interval(prim, inv)
+            if bi is not None and rs in BASE and -3 < ral < 3:
+                bj, ba = up(STEPS.index(rs), ral, bi[0], bi[1])
+                if -3 < ba < 3:
+                    bass = rn.bass_note if has else None
+                    if bass is None or (bass[:1].upper(), acc_of(bass)) != (STEPS[bj], ba):
+                        ev.oracle.append("bass note: %s/%s in %s, inversion %d: root %r, bass note %s; a %s%d above the root is %s%s" % (
+                            prim, sec, lk, inv, root, repr(bass) if has else "raised %r" % (e,), bi[0], bi[1], STEPS[bj], spell_acc(ba)))
+        ev.key = "roman:%s:%s:%s" % (lk, sec, d.get("inv"))
     elif k == "part":
         rng = random.Random(d["seed"])
-        sd = G.random_score_desc(rng, nparts=1 if d["as_part"] else rng.randint(1, 3), p_unp=0.05, p_tie=0.3)
+        tm = d.get("ties")
+        kw = dict(p_unp=0.05, p_tie=0.3)
+        if tm:
+            kw["p_tie"] = 0.5
+        if d.get("small"):
+            kw.update(n_measures=rng.randint(1, 2), voices=rng.randint(1, 2))
+        sd = G.random_score_desc(rng, nparts=1 if d["as_part"] else rng.randint(2 if tm == "cross" else 1, 3), **kw)
+        if tm:
+            for pd in sd["parts"]:
+                force_ties(pd, rng, 3)
+                if tm in ("enh", "mis", "mixed"):
+                    ev.info["respelled_links"] = ev.info.get("respelled_links", 0) + respell_ties(pd, rng, "mis" if tm == "mis" else "enh")
         if d.get("warm"):
             for pd in sd["parts"]:
                 pd["warm"] = d["warm"]
@@ -282,16 +688,41 @@ def evaluate(d):
                 p.parent = g
             score = S.Score(g, id="g")
         arg = score.parts[0] if d["as_part"] else score
+        keep_alive = tie_ops([arg] if d["as_part"] else list(arg.parts), tm, rng, ev.info) if tm else []
+        ev.info["tie_links"] = sum(1 for p in ([arg] if d["as_part"] else arg.parts) for n in p.notes if n.tie_next is not None)
         if d.get("read_first"):
             for p in ([arg] if d["as_part"] else list(arg.parts)):
                 call(lambda: p.note_array(include_pitch_spelling=True))
                 call(lambda: [n.midi_pitch for n in p.notes])
         before = G.fingerprint_score(arg, with_ids=True)
+        out_before = linked_outside([arg] if d["as_part"] else list(arg.parts))
         iv = S.Interval(d["n"], d["q"], d["dir"])
+        objs0, heap0 = heap_of(arg, {}, 0)
         res, e = call(M.transpose, arg, iv)
         after = G.fingerprint_score(arg, with_ids=True)
+        # heap stream: the argument's object graph before the call -> the argument's graph after it + the result's
+        known = {id(o): k for k, o in enumerate(objs0)}
+        objs1, heap1 = heap_of(arg, {}, 0)
+        ev.requests.append("th %s %d %s 0 %s" % (W.s(d["q"]), d["n"], d["dir"], W.lst(cell_req, heap0)))
+        if e:
+            ev.impl.append("err")
+        else:
+            objs2, heap2 = heap_of(res, known, len(heap0))
+            ev.impl.append(W.f_tuple(W.f_int(known.get(id(res), len(heap0))), W.f_list(cell_fmt, heap1 + heap2)))
+            shared = sorted({r for c in heap2 for r in (c[1] if c[0] in "SP" else c[-2]) if r < len(heap0)})
+            if shared or id(res) in known:
+                ev.oracle.append("the result shares %d object(s) with the argument (%s)" % (
+                    len(shared) + (id(res) in known), ", ".join(type(objs0[r]).__name__ for r in shared[:4])))
+        if [id(o) for o in objs0] != [id(o) for o in objs1] or heap0 != heap1:
+            bad = [(a, b) for a, b in zip(heap0, heap1) if a != b][:2]
+            ev.oracle.append("transpose modified the object graph of its argument: %s" % (bad or "objects added / removed",))
+        ev.info["heap_cells"] = len(heap0)
+        listed = {x for c in heap0 if c[0] == "P" for x in c[1]}
+        ev.info["heap_external"] = sum(1 for k_, c in enumerate(heap0) if c[0] in "NO" and k_ not in listed)
         if before != after:
             ev.oracle.append("transpose modified its argument (%s argument)" % ("Part" if d["as_part"] else "Score"))
+        if out_before != linked_outside([arg] if d["as_part"] else list(arg.parts)):
+            ev.oracle.append("transpose modified a note that the argument's notes are tied to (removed chain member / note of another part)")
         if e:
             ev.oracle.append("transpose raised %r" % (e,))
             return ev
@@ -303,6 +734,14 @@ def evaluate(d):
             ev.oracle.append("number of parts changed")
             return ev
         sg = 1 if d["dir"] == "up" else -1
+        # which object of the result stands for which object of the argument (by position in `.notes`, part by part)
+        twin, arg_objs = {}, set()
+        for pi, po in zip(parts_in, parts_out):
+            ni, no = list(pi.notes), list(po.notes)
+            arg_objs.update(id(a) for a in ni)
+            if len(ni) == len(no):
+                twin.update((id(a), b) for a, b in zip(ni, no))
+        arg_objs.update(x[0] for x in out_before)
         for pi, po in zip(parts_in, parts_out):
             ni = list(pi.notes)
             no = list(po.notes)
@@ -330,8 +769,27 @@ def evaluate(d):
                         b.midi_pitch - a.midi_pitch, d["q"], d["n"], d["dir"], sg * semis(d["q"], d["n"])))
                 if 7 * b.octave + STEPS.index(b.step) != 7 * a.octave + STEPS.index(a.step) + sg * (d["n"] - 1):
                     ev.oracle.append("note %s moved by the wrong number of staff steps" % a.id)
+                # the note moved by the interval from ITS OWN spelling, whatever it is tied to
+                exp = expected_spelling(a.step, a.alter, a.octave, d["q"], d["n"], sg)
+                if (b.step, b.alter or 0, b.octave) != exp:
+                    ev.oracle.append("note %s is %s (tie_prev %s, tie_next %s): %s%d %s takes it to %s, the result has %s" % (
+                        a.id, spell(a.step, a.alter, a.octave), tie_desc(a.tie_prev, arg_objs, twin), tie_desc(a.tie_next, arg_objs, twin),
+                        d["q"], d["n"], d["dir"], spell(*exp), spell(b.step, b.alter, b.octave)))
                 if (a.tie_next is None) != (b.tie_next is None) or (a.tie_next is not None and a.tie_next.id != b.tie_next.id):
                     ev.oracle.append("note %s: tie link changed" % a.id)
+                # ties are unchanged: a link of the result leads to the result's own note standing for the target (to a
+                # note of its own outside the parts where the argument's link leads outside), never into the argument
+                for attr in ("tie_next", "tie_prev"):
+                    ta, tb = getattr(a, attr), getattr(b, attr)
+                    if (ta is None) != (tb is None):
+                        ev.oracle.append("note %s: %s %s by the transposition" % (a.id, attr, "dropped" if tb is None else "created"))
+                    elif ta is not None:
+                        if id(tb) in arg_objs:
+                            ev.oracle.append("note %s of the result: %s is a note of the ARGUMENT" % (a.id, attr))
+                        elif id(ta) in twin and twin[id(ta)] is not tb:
+                            ev.oracle.append("note %s of the result: %s does not lead to the result's note %s" % (a.id, attr, ta.id))
+                        elif id(ta) not in twin and (type(ta), ta.id) != (type(tb), tb.id):
+                            ev.oracle.append("note %s of the result: %s leads to %s, in the argument to %s" % (a.id, attr, tb.id, ta.id))
             # the note array of the result (what exports, piano rolls, ... are made from) shows the moved pitches
             na_i, e1 = call(lambda: pi.note_array())
             na_o, e2 = call(lambda: po.note_array())
@@ -361,8 +819,19 @@ def evaluate(d):
                     bad = [(x, y) for x, y in zip(sa, sb) if x != y][:2]
                     ev.oracle.append("up and down: (id, step, alter, octave, midi) %s came back as %s" % (
                         [x for x, _ in bad], [y for _, y in bad]))
-        ev.key = "part:%d:%s:%s:%s:%s" % (d["seed"], d.get("warm"), d.get("read_first"), d.get("score_form"), d.get("same_ids"))
+        ev.key = "part:%d:%s:%s:%s:%s:%s" % (d["seed"], d.get("warm"), d.get("read_first"), d.get("score_form"), d.get("same_ids"), tm)
+        del keep_alive
     return ev
+
+
+def tie_desc(t, arg_objs, twin):
+    if t is None:
+        return "none"
+    return "%s %s%s" % (t.id, spell(t.step, t.alter, t.octave), "" if id(t) in twin else " (not in the argument's parts)")
+
+
+def spell(step, alter, octv):
+    return "%s%s%d" % (step, {None: "", 0: "", 1: "#", 2: "##", -1: "b", -2: "bb"}.get(alter, "(%+d)" % (alter or 0)), octv)
 
 
 def mask_pitch(fp):
@@ -384,6 +853,18 @@ def shrink(d):
 def distribution(descs, results):
     from collections import Counter
 
+    parts = [d for d in descs if d["k"] == "part"]
+    info = Counter()
+    for r in results:
+        for k_, v in ((r or {}).get("info") or {}).items():
+            if isinstance(v, int):
+                info[k_] += v
+    streams = Counter(q.split(" ", 1)[0] for r in results for q in ((r or {}).get("requests") or []))
     return {"by_kind": dict(Counter(d["k"] for d in descs)),
-            "part_args": sum(1 for d in descs if d["k"] == "part" and d["as_part"]),
-            "score_args": sum(1 for d in descs if d["k"] == "part" and not d["as_part"])}
+            "part_args": sum(1 for d in parts if d["as_part"]),
+            "score_args": sum(1 for d in parts if not d["as_part"]),
+            "tie_modes": dict(Counter((d.get("ties") or "plain") + (":part" if d["as_part"] else ":score") for d in parts)),
+            "tie_and_heap_totals": dict(info),
+            "observations_per_stream": dict(streams),
+            "roman_inversions": dict(Counter(d.get("inv") for d in descs if d["k"] == "roman")),
+            "roman_keys_written_with_dash": sum(1 for d in descs if d["k"] == "roman" and "-" in d["key"])}
